@@ -393,5 +393,8 @@ def genMain (tier : String) (seed : Nat) : IO Unit := do
     IO.println ({ input := s!"C:sharedcode 16 0 {seed * 1000 + i}", modelV := "same", specV := "same", tags := ["nt", "n16"] } : Case).line
     IO.println ({ input := s!"C:compile 16 0 {seed * 1000 + i}", modelV := "same", specV := "same", tags := ["nt", "n16"] } : Case).line
     IO.println ({ input := s!"C:srcfile {if i % 2 == 0 then 4 else 16} 0 {seed * 1000 + i}", modelV := "same", specV := "same", tags := ["nt", "nopaths"] } : Case).line
+  -- tie-only: contexts whose sys.path name DIFFERENT directories holding a module of the SAME name (answer to seed C08-c)
+  for i in List.range (if thorough then 24 else 6) do
+    IO.println ({ input := s!"C:samename {if i % 3 == 0 then 2 else if i % 3 == 1 then 4 else 16} 0 {seed * 1000 + i}", modelV := "own", specV := "own", tags := ["nt", "samename"] } : Case).line
 
 end GPy.C08
